@@ -65,6 +65,17 @@ KINDS = {
     "swap-follows-edit": [("g", "g"), ("x", "x")],         # key rolled AND file updated: must open again
     "swap-edit-crossed": [("g", "x"), ("x", "g")],         # never matching, each open sees the other's key
 }
+# retries: open() again on the same object WITHOUT close() after the previous open (failed at the host key verification, at
+# the authentication, or succeeded) — every open must verify the key presented to IT
+NOCLOSE_KINDS = {
+    "retry-other": [("x", "g"), ("x", "g")],                 # fails at verification, retried: must fail the same way
+    "retry-absent": [("g", None), ("g", None)],
+    "retry-other-thrice": [("x", "g"), ("y", "g"), ("x", "g")],
+    "retry-edited-away": [("g", "x"), ("g", None)],
+    "retry-other-then-good": [("x", "g"), ("g", "g")],       # the retry reaches the genuine server: opens
+    "good-then-other": [("g", "g"), ("x", "g")],             # opened, not closed, opened again while another server answers
+    "rejected-then-other": [("g", "g"), ("x", "g")],         # right key but the server rejects the credentials, then another server
+}
 ROLE = {"A": {"g": "A", "x": "B", "y": "R"}, "R": {"g": "R", "x": "Q", "y": "A"}}
 FAILAUTH, OPENED = 20, 30
 
@@ -291,8 +302,10 @@ def loop_case(M, keys, hist, lib, via, strict, method, acc, fmt, port, steps, re
 # ------------------------------------------------------------------------------------------------
 # order histories over the stub libraries
 # ------------------------------------------------------------------------------------------------
-def order_history(stubs, lib, conf, khfile, steps, edit="inplace"):
-    """conf: the object's fixed part (strict, has_key, has_pw, has_user); steps: [(scenario, text)]"""
+def order_history(stubs, lib, conf, khfile, steps, edit="inplace", close_between=True):
+    """conf: the object's fixed part (strict, has_key, has_pw, has_user); steps: [(scenario, text)].
+    close_between False: open() is called again on the object WITHOUT close() in between (a caller retrying a failed open):
+    whatever the earlier attempt left on the object (socket, library session, a completed key exchange) is still there"""
     rewrite(khfile, steps[0][1])
     t = stubs.make(lib, steps[0][0], khfile)
     traces, ckws = [], []
@@ -301,6 +314,8 @@ def order_history(stubs, lib, conf, khfile, steps, edit="inplace"):
         trace, ckw = stubs.open_on(t, lib, sc)
         traces.append(trace)
         ckws.append(ckw)
+        if not close_between:
+            continue
         try:
             t.close()
         except Exception:  # noqa
@@ -322,8 +337,8 @@ def judge_order(M, lib, khfile, steps, traces, ckws):
     return fails
 
 
-def coq_history(M, scens):
-    return coq_list([x for sc in scens for x in ("HOpen %s" % M.coq_scen(sc), "HClose")])
+def coq_history(M, scens, close_between=True):
+    return coq_list([x for sc in scens for x in (("HOpen %s" % M.coq_scen(sc), "HClose") if close_between else ("HOpen %s" % M.coq_scen(sc),))])
 
 
 # ------------------------------------------------------------------------------------------------
@@ -596,6 +611,40 @@ def run_suite(rep, M, keys, write_kh, scrapli_entry, dist, thorough, only_search
                 rep.case(("hist-order", lib, kind, fmt, edit, strict, has_key, has_pw, has_user,
                           tuple((sc["skey"] == keys.pub["A"][1], sc["entry"] == sc["skey"], sc["handshake_ok"], sc["key_ok"], sc["pw_ok"], sc["libv"]) for sc, _ in steps)),
                          nontrivial=strict)
+            # ---- retries: open() again WITHOUT close() ---------------------------------------------
+            nk = list(NOCLOSE_KINDS)
+            for i in range((12 if thorough else 2) * 3 * len(nk)):
+                lib = M.LIBS[i % 3]
+                kind = nk[(i // 3) % len(nk)]
+                has_key, has_pw = rng.choice([(True, False), (False, True), (True, True), (False, True)])
+                fmt = rng.choice(["plain", "hashed", "comma"])
+                roles = [(ROLE["A"][s], None if l is None else ROLE["A"][l]) for s, l in NOCLOSE_KINDS[kind]]
+                khfile = fresh_kh()
+                texts = kh_versions(M, rng, pub3, roles, fmt, 22, same_shape=False)
+                steps = []
+                for j, ((server, listed), text) in enumerate(zip(roles, texts)):
+                    entry_of_content = scrapli_entry(write_kh(text))
+                    skey = keys.pub[server][1]
+                    key_bad = skey not in M.spec_entry_keys(text, M.HOST, 22)
+                    accepts = not (kind == "rejected-then-other" and j == 0)
+                    steps.append(({"strict": True, "entry": entry_of_content, "skey": skey,
+                                   "libv": ("Trusted" if not key_bad else rng.choice(["Untrusted", "NoCommonAlg"])) if lib == "Asyncssh" else "Trusted",
+                                   "handshake_ok": True, "has_key": has_key, "has_pw": has_pw, "has_user": True,
+                                   "key_ok": accepts, "pw_ok": accepts, "kbd_ok": accepts if lib == "Ssh2" else False}, text))
+                traces, ckws = order_history(stubs, lib, None, khfile, steps, "inplace", close_between=False)
+                case = {"suite": "hostkey-history", "kind": "order", "history": "noclose:" + kind, "lib": lib, "format": fmt, "edit": "inplace",
+                        "close_between": False,
+                        "steps": [{"scenario": sc, "known_hosts": text, "trace": [M.EVN.get(e, e) for e in tr]}
+                                  for (sc, text), tr in zip(steps, traces)]}
+                cases.append(case)
+                terms.append("HcOrder %s %s %s" % (lib, coq_history(M, [sc for sc, _ in steps], close_between=False), coq_list([coq_bytes(tr) for tr in traces])))
+                term_case.append(len(cases) - 1)
+                for ix, why in judge_order(M, lib, khfile, steps, traces, ckws):
+                    fails.append((case, why + " [open() retried on the object without close()]"))
+                n_order += 1
+                count("order", "order_" + lib, "order_noclose", "order_noclose_" + kind, "opens_%d" % len(steps))
+                rep.case(("hist-order-noclose", lib, kind, fmt, has_key, has_pw,
+                          tuple((sc["skey"] == keys.pub["A"][1], sc["entry"] == sc["skey"], sc["key_ok"], sc["libv"]) for sc, _ in steps)), nontrivial=True)
         finally:
             stubs.restore()
 
@@ -732,10 +781,11 @@ def replay(M, c, workdir):
         stubs = M.Stubs(workdir, keys.client_key_path)
         try:
             steps = [(st["scenario"], st["known_hosts"]) for st in c["steps"]]
-            traces, ckws = order_history(stubs, c["lib"], None, khfile, steps, c.get("edit", "inplace"))
+            traces, ckws = order_history(stubs, c["lib"], None, khfile, steps, c.get("edit", "inplace"), close_between=c.get("close_between", True))
         finally:
             stubs.restore()
-        print("transport:", c["lib"], "(stub library), ONE object, %d opens; known_hosts versions reach the path by: %s" % (len(steps), c.get("edit", "inplace")))
+        print("transport:", c["lib"], "(stub library), ONE object, %d opens%s; known_hosts versions reach the path by: %s" % (
+            len(steps), "" if c.get("close_between", True) else " WITHOUT close() in between", c.get("edit", "inplace")))
         for i, ((sc, text), tr) in enumerate(zip(steps, traces)):
             print("open #%d: server key %s... known_hosts entry %s  trace: %s" % (
                 i + 1, sc["skey"][-12:], "none" if sc["entry"] is None else sc["entry"][-12:] + "...", [M.EVN.get(e, e) for e in tr]))
